@@ -534,7 +534,7 @@ func c03Jobs(tier string) []*SeqJob {
 		}
 		jobs = append(jobs, job)
 	}
-	jobs = append(jobs, c03DefaultsJob(), c03HistoryJob(tier))
+	jobs = append(jobs, c03DefaultsJob(), c03HistoryJob(tier), c03PairsJob(tier))
 	return jobs
 }
 
@@ -707,4 +707,88 @@ func c03HistoryJob(tier string) *SeqJob {
 		return "", ""
 	}
 	return job
+}
+
+// c03PairsJob: two histograms with different specifications under one root
+// (they share the bucket cache): the second one must still bucket by its own bounds.
+func c03PairsJob(tier string) *SeqJob {
+	va := c03ValueAlphabet()
+	da := c03DurationAlphabet()
+	L := 2
+	var vspecs [][]float64
+	enumSeqs(len(va), L, func(seq []int) bool {
+		sp := make([]float64, len(seq))
+		for i, k := range seq {
+			sp[i] = va[k]
+		}
+		vspecs = append(vspecs, sp)
+		return true
+	})
+	var dspecs [][]time.Duration
+	enumSeqs(len(da), L, func(seq []int) bool {
+		sp := make([]time.Duration, len(seq))
+		for i, k := range seq {
+			sp[i] = da[k]
+		}
+		dspecs = append(dspecs, sp)
+		return true
+	})
+	run := func(kind string, i, j int) (string, string, int) {
+		e := newHistEnv(pathCached, nil)
+		sub := e.root.SubScope("s")
+		if kind == "value" {
+			e.root.Histogram("first", tally.ValueBuckets(append([]float64{}, vspecs[i]...)))
+			return checkValueHistogramOn(e, sub, "second", tally.ValueBuckets(append([]float64{}, vspecs[j]...)), vspecs[j])
+		}
+		e.root.Histogram("first", tally.DurationBuckets(append([]time.Duration{}, dspecs[i]...)))
+		return checkDurationHistogramOn(e, sub, "second", tally.DurationBuckets(append([]time.Duration{}, dspecs[j]...)), dspecs[j])
+	}
+	j := &SeqJob{Property: "C03", Name: "two-histograms-one-root", Shards: tierInt(tier, 4, 8)}
+	j.Run = func(ctx *SeqCtx) {
+		n := 0
+		for _, kind := range []string{"value", "duration"} {
+			cnt := len(vspecs)
+			if kind == "duration" {
+				cnt = len(dspecs)
+			}
+			for a := 0; a < cnt; a++ {
+				for b := 0; b < cnt; b++ {
+					n++
+					if !ctx.Mine(n) {
+						continue
+					}
+					if ctx.Expired() {
+						return
+					}
+					kind, a, b := kind, a, b
+					steps := 0
+					cl, det := guard(func() (string, string) { c, d, s := run(kind, a, b); steps = s; return c, d })
+					ops := []string{kind, fmt.Sprint(a), fmt.Sprint(b)}
+					ctx.Case(steps, a != b, func() string { return fmt.Sprint(ops) })
+					ctx.State(fmt.Sprint(ops))
+					if cl != "" {
+						ctx.Fail("second-histogram: "+cl, det, ops)
+						if ctx.viol != nil {
+							return
+						}
+					}
+				}
+			}
+		}
+		ctx.Alphabet("all ordered pairs of specifications of length <= 2 over the C03 bound alphabets")
+		if !ctx.st.TimedOut && ctx.viol == nil {
+			ctx.DepthDone(2)
+		}
+	}
+	j.Replay = func(ops []string) (string, string) {
+		var a, b int
+		fmt.Sscan(ops[1], &a)
+		fmt.Sscan(ops[2], &b)
+		cl, det := guard(func() (string, string) { c, d, _ := run(ops[0], a, b); return c, d })
+		if cl != "" {
+			cl = "second-histogram: " + cl
+		}
+		return cl, det
+	}
+	return j
 }
